@@ -4,9 +4,11 @@
 package check
 
 //@ func (*Resolver).isCached(r, consistency, key) (res, ok)
-//@   property C10
+//@   property C10 C11
 //@   option nosafety
 //@   requires r != nil && r.cache != nil
 //@   ensures @higherBypass consistency == openfgav1.ConsistencyPreference_HIGHER_CONSISTENCY ==> !ok && res == nil
+//@   ensures @servedOnlyIfValid ok ==> typeIs(gmap("cache", r.cache, key), "*check.ResponseCacheEntry") && res == as(gmap("cache", r.cache, key), "*check.ResponseCacheEntry").Res && ts(as(gmap("cache", r.cache, key), "*check.ResponseCacheEntry").LastModified) > ts(r.lastCacheInvalidationTime)
+//@   ensures @notServed !ok ==> res == nil
 //@   monitor noCacheOnHigher
 //@     before call storage.InMemoryCache.* : assert consistency != openfgav1.ConsistencyPreference_HIGHER_CONSISTENCY
